@@ -88,7 +88,7 @@ func (s *simState) count(e simEvent) {
 		s.cnt.Admin++
 	case "SN":
 		s.cnt.Snaps++
-	case "K", "SD":
+	case "K", "SD", "KA":
 		s.cnt.Crashes--
 	}
 }
@@ -269,6 +269,7 @@ type expandResp struct {
 	Stats    map[string]int `json:"stats,omitempty"`
 	Canon    string         `json:"canon,omitempty"`
 	Final    []simViolation `json:"final,omitempty"`
+	CrashImages int         `json:"crashImages,omitempty"` // "died at storage point k" successors computed
 	OrderSteps int          `json:"orderSteps,omitempty"` // transitions repeated because they may depend on map iteration order
 	OrderAlts  int          `json:"orderAlts,omitempty"`  // additional outcomes found that way
 }
@@ -374,6 +375,13 @@ func expandState(sc *simScenario, req *expandReq) *expandResp {
 		resp.Final = finalCheck(sc, req.Hist)
 	}
 	parentHash := resp.Hash
+	type crashPt struct {
+		ev      simEvent
+		node    int
+		npoints int
+		names   []string
+	}
+	var crashPts []crashPt
 	for i, e := range evs {
 		seenOut := map[string]bool{}
 		attempts := 1
@@ -411,6 +419,13 @@ func expandState(sc *simScenario, req *expandReq) *expandResp {
 				seenOut[rec.Hash+rec.Err] = true
 				resp.Succ = append(resp.Succ, rec)
 			}
+			if a == 0 && rec.Err == "" && sc.Menu.CrashAt && e.K != "K" && e.K != "S" && e.K != "SD" && e.K != "KA" {
+				for _, n := range cur.w.nodes {
+					if len(n.points) > 0 && cur.cnt.Crashes > 0 {
+						crashPts = append(crashPts, crashPt{ev: e, node: n.idx, npoints: len(n.points), names: append([]string(nil), n.points...)})
+					}
+				}
+			}
 			cur.close()
 			if a == 0 && risk && rec.Err == "" {
 				// the outcome may depend on map iteration order: repeat to collect the alternatives
@@ -420,6 +435,35 @@ func expandState(sc *simScenario, req *expandReq) *expandResp {
 		}
 		if len(seenOut) > 1 {
 			resp.OrderAlts += len(seenOut) - 1
+		}
+	}
+	// "node dies at its k-th storage point inside event e" for every storage-mutating transition
+	for _, cp := range crashPts {
+		for k := 0; k < cp.npoints; k++ {
+			inner := cp.ev
+			ka := simEvent{K: "KA", N: cp.node, A: k, In: &inner, Dev: inner.Dev + 1, S: cp.names[k]}
+			if s.dev+ka.Dev > sc.MaxDev {
+				continue
+			}
+			cur, err, ok := replayMatch(sc, req.Hist, parentHash)
+			if err != nil || !ok {
+				cur.close()
+				continue
+			}
+			nv := len(cur.w.led.viol)
+			rec := succRec{Ev: ka}
+			if err := cur.apply(ka, false); err != nil {
+				rec.Err = describeErr(cur, err)
+			} else {
+				rec.Hash = cur.hash()
+				rec.Dev = cur.dev
+				resp.CrashImages++
+			}
+			if len(cur.w.led.viol) > nv {
+				rec.Viol = append(rec.Viol, cur.w.led.viol[nv:]...)
+			}
+			resp.Succ = append(resp.Succ, rec)
+			cur.close()
 		}
 	}
 	if len(evs) == 0 {
@@ -507,6 +551,8 @@ type exploreResult struct {
 	Mismatches   int
 	OrderSteps   int
 	OrderAlts    int
+	CrashImages  int
+	CrashPoints  map[string]int
 	Validated    int // histories re-executed on the implementation that reproduced the recorded state hash
 	WorkerDeaths int
 	Wall         float64
@@ -709,6 +755,7 @@ func explore(sc *simScenario, budget time.Duration, maxStates int) *exploreResul
 						addFinding(v, nil)
 					}
 				}
+				res.CrashImages += resp.CrashImages
 				res.OrderSteps += resp.OrderSteps
 				res.OrderAlts += resp.OrderAlts
 				for k, v := range resp.Stats {
@@ -731,6 +778,12 @@ func explore(sc *simScenario, budget time.Duration, maxStates int) *exploreResul
 				}
 				for _, sr := range resp.Succ {
 					res.Transitions++
+					if sr.Ev.K == "KA" && sr.Err == "" {
+						if res.CrashPoints == nil {
+							res.CrashPoints = map[string]int{}
+						}
+						res.CrashPoints[sr.Ev.S]++
+					}
 					hist := append(r.node.history(), sr.Ev)
 					if sr.Err != "" {
 						res.Errors = append(res.Errors, fmt.Sprintf("event %v after %v: %s", sr.Ev, r.node.history(), firstLine(sr.Err)))
